@@ -83,7 +83,8 @@ thread_local! {
 
 /// Called from every seam; a no-op outside a simulated thread.
 pub fn sched_yield(site: u32) {
-    let ctx = CTX.with(|c| c.borrow().clone());
+    // try_with: calls are also made from thread-local destructors during thread teardown
+    let ctx = CTX.try_with(|c| c.borrow().clone()).ok().flatten();
     if let Some((s, i)) = ctx {
         s.yield_now(i, site);
     }
